@@ -152,7 +152,12 @@ Definition m_update (c : cond) (ids : list nat) (tbl : list (rec nat)) (ca : lis
   && (negb (m_last_is past i WSuccessful && negb (m_holds_suff c r o))
       || list_eqb ev_eqb e [(i, if is_current c && m_replaced r o then WFailed else WPending)])
   (* Pending / Failed are reported only while the condition does not hold *)
-  && m_nonsuccess_sound c tbl ca e.
+  && m_nonsuccess_sound c tbl ca e
+  (* an event reports a CHANGE: an object last reported reconciled is not reported
+     reconciled again, one last reported pending not pending again (a consumer that
+     counts reconciled objects would count it twice) *)
+  && (negb (m_last_is past i WSuccessful) || forallb (fun ev => negb (wstatus_eqb (snd ev) WSuccessful)) e)
+  && (negb (m_last_is past i WPending) || forallb (fun ev => negb (wstatus_eqb (snd ev) WPending)) e).
 
 Definition m_timeout (ids : list nat) (past : list (nat * wstatus)) (ended : bool)
            (e : list (nat * wstatus)) : bool :=
